@@ -283,6 +283,63 @@ Section Tokenizer.
   Definition from_qualified_name (s : str) : column := from_qualified_name_ic s false.
 End Tokenizer.
 
+(* ------------------------------------------------------------------ fallback parser (no sqlparser) *)
+(* utils/mod.rs, cfg(not(feature = sql)): what datafusion-common uses when built WITHOUT the sql
+   feature.  parse_identifiers: one pass over the chars; a double quote toggles in_quotes and is kept;
+   a '.' outside quotes ends the current piece; the last piece is pushed only if it is non-empty.
+   [cur] and [acc] are the Rust locals current / result, kept reversed. *)
+Fixpoint split_ns (s : str) (in_quotes : bool) (cur : str) (acc : list str) : list str :=
+  match s with
+  | [] => rev (match cur with [] => acc | _ => rev cur :: acc end)
+  | c :: r =>
+      if c =? 34 then split_ns r (negb in_quotes) (c :: cur) acc
+      else if (c =? 46) && negb in_quotes then split_ns r in_quotes [] (rev cur :: acc)
+      else split_ns r in_quotes (c :: cur) acc
+  end.
+Definition parse_identifiers_ns (s : str) : list str := split_ns s false [] [].
+
+(* str::len of the piece: UTF-8 bytes *)
+Definition utf8_len1 (c : N) : N := if c <? 128 then 1 else if c <? 2048 then 2 else if c <? 65536 then 3 else 4.
+Definition utf8_len (s : str) : N := fold_right (fun c n => utf8_len1 c + n) 0 s.
+
+(* chars.next() == Some(DQUOTE) && chars.last() == Some(DQUOTE), guarded by id.len() > 2 *)
+Definition last_is (q : N) (s : str) : bool :=
+  match s with [] => false | _ :: _ => last s 0 =? q end.
+Definition is_double_quoted (id : str) : bool :=
+  if 2 <? utf8_len id then hd_is 34 id && last_is 34 (tl id) else false.
+
+(* .replace(DQUOTE DQUOTE, DQUOTE): leftmost non-overlapping pairs *)
+Fixpoint unescape_dq (s : str) : str :=
+  match s with
+  | [] => []
+  | c :: r =>
+      match r with
+      | d :: r' => if (c =? 34) && (d =? 34) then 34 :: unescape_dq r' else c :: unescape_dq r
+      | [] => [c]
+      end
+  end.
+
+Definition normalize_ns (ignore_case : bool) (id : str) : str :=
+  if is_double_quoted id then unescape_dq (removelast (tl id))      (* id[1..id.len() - 1] *)
+  else if ignore_case then id else map ascii_lower id.
+
+Definition parse_identifiers_normalized_ns (s : str) (ignore_case : bool) : list str :=
+  map (normalize_ns ignore_case) (parse_identifiers_ns s).
+
+Definition parse_str_normalized_ns (s : str) (ignore_case : bool) : tref :=
+  match from_vec (parse_identifiers_normalized_ns s ignore_case) with
+  | Some r => r
+  | None => Bare s
+  end.
+Definition parse_str_ns (s : str) : tref := parse_str_normalized_ns s false.
+
+(* without the sql feature from_qualified_name_ignore_case is from_qualified_name *)
+Definition from_qualified_name_ns (s : str) : column :=
+  match from_idents (parse_identifiers_normalized_ns s false) with
+  | Some c => c
+  | None => mkcol None s
+  end.
+
 (* ------------------------------------------------------------------ specification *)
 (* The property: text produced by the printer parses back to the same object. *)
 Definition nonempty (s : str) : bool := match s with [] => false | _ => true end.
@@ -301,6 +358,21 @@ Definition col_ok (c : column) : bool :=
   match relation c with
   | None => true
   | Some r => forallb nonempty (to_vec r) && nonempty (name c)
+  end.
+
+(* Side condition for the fallback parser: only the LAST part must be non-empty (a trailing empty
+   piece is dropped by "push the last part if it is not empty"; C52_ns_empty_last_refuted). *)
+Definition ref_ok_ns (r : tref) : bool :=
+  match r with
+  | Bare _ => true
+  | Partial _ t => nonempty t
+  | Full _ _ t => nonempty t
+  end.
+
+Definition col_ok_ns (c : column) : bool :=
+  match relation c with
+  | None => true
+  | Some _ => nonempty (name c)
   end.
 
 (* no part needs quoting: then the unquoted Display form is the quoted form *)
@@ -324,6 +396,31 @@ Inductive c52_case :=
   | CCol (rel : list str) (nm text flat : str) (back_rel : list str) (back_name : str)
   (* arbitrary text: parse_str_normalized(text, ic).to_vec(), from_qualified_name[_ignore_case] *)
   | CParse (text : str) (ic : bool) (tr : list str) (col_rel : list str) (col_name : str).
+
+(* same observations made on the build without the sql feature (ic is ignored by the column path) *)
+Definition c52_check_ns (c : c52_case) : bool :=
+  match c with
+  | CTr parts text disp back =>
+      match from_vec parts with
+      | Some r =>
+          str_eqb (to_quoted_string r) text && str_eqb (display r) disp
+          && strs_eqb (to_vec (parse_str_ns text)) back
+      | None => false
+      end
+  | CCol rel nm text flat back_rel back_name =>
+      match (match rel with [] => Some None | _ => option_map Some (from_vec rel) end) with
+      | Some ro =>
+          let c := mkcol ro nm in
+          let b := from_qualified_name_ns text in
+          str_eqb (quoted_flat_name c) text && str_eqb (flat_name c) flat
+          && strs_eqb (rel_vec b) back_rel && str_eqb (name b) back_name
+      | None => false
+      end
+  | CParse text ic tr col_rel col_name =>
+      let b := from_qualified_name_ns text in
+      strs_eqb (to_vec (parse_str_normalized_ns text ic)) tr
+      && strs_eqb (rel_vec b) col_rel && str_eqb (name b) col_name
+  end.
 
 Definition c52_check (ua us : N -> bool) (c : c52_case) : bool :=
   match c with
